@@ -8,9 +8,14 @@ export GOFLAGS=-mod=mod GOPROXY=off GOSUMDB=off GOTOOLCHAIN=local; unset GOWORK
 python3 - <<'PY'
 import json,subprocess,os,re,glob
 res={}
-for d in sorted(glob.glob('/verif/seeded/C*-[0-9]')):
+from concurrent.futures import ThreadPoolExecutor
+dirs=sorted(glob.glob('/verif/seeded/C*-[0-9]'))
+def run(d):
+    return subprocess.run(['/verif/bin/crsverif','-property','ALL','-repo','/repo','-verif','/verif','-no-evidence','-patch',d+'/patch.diff'],capture_output=True,text=True).stdout
+with ThreadPoolExecutor(6) as ex:
+    outs=list(ex.map(run,dirs))
+for d,out in zip(dirs,outs):
     sid=os.path.basename(d); pid=sid.split('-')[0]
-    out=subprocess.run(['/verif/bin/crsverif','-property','ALL','-repo','/repo','-verif','/verif','-no-evidence','-patch',d+'/patch.diff'],capture_output=True,text=True).stdout
     cur=None; rep={}
     for l in out.splitlines():
         m=re.match(r'PROP (\S+) REPORTS',l)
